@@ -1,10 +1,18 @@
 """Path exploration by re-execution with a decision trace, and obligation bookkeeping."""
+import os
 import time
 import z3
 
 
+_SLOW = float(os.environ.get('PYVC_SLOW', '0') or 0)
+
+
 class Infeasible(Exception):
     """The path condition became unsatisfiable (after an assume)."""
+
+
+class WouldFork(Exception):
+    """raised instead of forking while an expression is evaluated speculatively (Path.nofork > 0)"""
 
 
 class PathEnd(Exception):
@@ -92,6 +100,7 @@ class Path:
         self.prefix = prefix
         self.trace = []
         self.alts = []
+        self.nofork = 0
         self.pos = 0
         self.results = results
         self.solver = z3.Solver()
@@ -121,6 +130,9 @@ class Path:
     def _check(self, *assumptions):
         t0 = time.time()
         r = self.solver.check(*assumptions)
+        if _SLOW and time.time() - t0 > _SLOW:
+            import sys
+            print(f"[slow feasibility query {time.time() - t0:.1f}s -> {r}] {[str(a)[:300] for a in assumptions]}", file=sys.stderr)
         self.results.solver_ms += (time.time() - t0) * 1000
         self.nchecks += 1
         return r
@@ -137,6 +149,8 @@ class Path:
             return True
         if z3.is_false(c):
             return False
+        if self.nofork:
+            raise WouldFork()
         if self.pos < len(self.prefix):
             d = self.prefix[self.pos]
         else:
@@ -160,6 +174,8 @@ class Path:
 
     def choose(self, n, conds=None):
         """n-way nondeterministic choice, optional z3 condition per option."""
+        if self.nofork:
+            raise WouldFork()
         if self.pos < len(self.prefix):
             d = self.prefix[self.pos]
         else:
